@@ -65,7 +65,7 @@ pub fn props() -> Vec<PropCfg> {
             id: "C10",
             profiles: &[("C10", 14), ("C10-hard", 2), ("C10-seq", 1)],
             quick_runs: 1000000,
-            thorough_runs: 40000000,
+            thorough_runs: 10000000,
             level: "exploration",
             rule: "one case = one seeded pattern tree (formatters m/l/t with fill/alignment/min/max specs, fills over multi-byte and syntax characters, nested groups up to depth 3, m <= M), a message built from 1-4 Display pieces over 1-4-byte scalars and combining marks, and a downstream writer that accepts a scripted 1..len bytes per call (may stop inside a character) and answers Interrupted on scripted calls; output compared with the character-exact truncate-then-pad specification; profile C10-hard makes the writer fail for good and only asserts no panic; profile C10-seq (1/17 of the cases, each on a fresh thread) runs 1-2 encodes into a failing writer before the judged one on the same thread (no state may leak from a failed record into the next); non-trivial = at least one short write or interruption happened; distinct = distinct fingerprints of (pattern, message, accepted sizes, output)",
             assumptions: &["the fault is injected at the encode::Write trait seam; no threads or clock are involved in this property"],
@@ -100,12 +100,12 @@ pub fn props() -> Vec<PropCfg> {
         },
         PropCfg {
             id: "C05",
-            profiles: &[("C05", 5), ("C05-encfail", 1)],
+            profiles: &[("C05", 33), ("C05-encfail", 6), ("C05-fault", 1)],
             quick_runs: 40000,
             thorough_runs: 600000,
             level: "exploration",
             rule: "one case = one seeded history (pre-existing active file/archives/bystanders, trigger in {size,time,on-start-up,scripted pre/post}, roller in {delete, fixed window base/count/pattern incl. second mount}, 1-3 writer threads, clean/dirty restarts in either mode) under one seeded schedule, compared byte-for-byte with the directory model after every append; non-trivial = at least one rotation completed; distinct = distinct event-log fingerprints",
-            assumptions: &["no filesystem fault is injected (those are C08's); profile C05-encfail (1/6 of the histories) makes the harness encoder fail part-way on selected records: the bytes it had written stay in the appender's buffer and are modelled exactly (they reach the file with the next flush, rotation or clean close), nothing acknowledged may be damaged", "dirty restarts happen only while no append is in flight", "interleavings at hook/seam granularity"],
+            assumptions: &["profile C05-fault (1/40 of the histories) re-executes its history once per rotation-step site with an error or crash image there, as C08 does: acknowledged records lost after a failed rotation contradict C05 as well; the other profiles inject no filesystem fault; profile C05-encfail (6/40 of the histories) makes the harness encoder fail part-way on selected records: the bytes it had written stay in the appender's buffer and are modelled exactly (they reach the file with the next flush, rotation or clean close), nothing acknowledged may be damaged", "dirty restarts happen only while no append is in flight", "interleavings at hook/seam granularity"],
             real: R_REAL,
             stub: R_STUB,
         },
@@ -122,12 +122,12 @@ pub fn props() -> Vec<PropCfg> {
         },
         PropCfg {
             id: "C07",
-            profiles: &[("C07", 30), ("C05", 9), ("C07-fault", 1)],
+            profiles: &[("C07", 28), ("C05", 9), ("C07-obst", 2), ("C07-fault", 1)],
             quick_runs: 80000,
             thorough_runs: 1000000,
             level: "exploration",
             rule: "profile C07 (3/4 of the cases): direct Roll::roll calls of the real FixedWindowRoller / DeleteRoller, 1-12 successive rolls over generated trees (pre-existing archives inside, beyond and below the window, gaps, look-alike bystanders; patterns with the index in the file name, in a directory, repeated, under $ENV, on a second mount), whole tree compared with the window model after every roll; profile C05 (1/4): the same roller invariants observed inside full rolling-appender histories; non-trivial = at least one roll completed; distinct = distinct event-log fingerprints",
-            assumptions: &["profiles C07 and C05 inject no fault; profile C07-fault (1/40 of the histories) re-executes its history once per rotation-step site with an error injected there, retries the failed roll and judges the rolls that follow (the retained window after a failed roll is whatever it left on disk)", "gzip patterns only in the thorough tier (gzip build); zstd not exercised"],
+            assumptions: &["profiles C07 and C05 inject no fault; profile C07-obst (2/40) puts a non-empty directory at an archive name before one roll: if that roll fails nothing that still fits the window may be lost, if it succeeds the tree must match the model; profile C07-fault (1/40 of the histories) re-executes its history once per rotation-step site with an error injected there, retries the failed roll and judges the rolls that follow (the retained window after a failed roll is whatever it left on disk)", "gzip patterns only in the thorough tier (gzip build); zstd not exercised"],
             real: &["FixedWindowRoller::roll / rotate / move_file (incl. real EXDEV copy+delete on a second mount)", "DeleteRoller", "expand_env_vars", "kernel tmpfs + second filesystem"],
             stub: &["none for profile C07 (the roller is called directly); profile C05 as in world R"],
         },
@@ -148,12 +148,12 @@ pub fn props() -> Vec<PropCfg> {
         },
         PropCfg {
             id: "C16",
-            profiles: &[("C16", 7), ("C16-huge", 1)],
+            profiles: &[("C16", 69), ("C16-huge", 10), ("C16-fault", 1)],
             quick_runs: 60000,
             thorough_runs: 1000000,
             level: "exploration",
             rule: "world R with the real TimeTrigger on the simulated wall clock: 8 POSIX TZ rules (fixed offsets and DST incl. 30-minute and local-midnight transitions) x 7 units x multipliers x modulate x random-delay bound; start instants and clock moves biased to scheduled-1s/scheduled/+1s, unit boundaries, leap day, month/year/ISO-week-year ends, DST gaps and overlaps, backward jumps; every (re)schedule is checked against the calendar oracle; non-trivial = the trigger fired at least once; distinct = distinct event-log fingerprints; profile C16-huge only asserts the no-panic clause for multipliers up to i64::MAX",
-            assumptions: &["chrono's UTC->local conversion and naive calendar arithmetic are trusted (the oracle never maps local->UTC through the zone)", "the boundary equation is asserted only when the zone offset is identical at start-of-unit, now and the scheduled instant"],
+            assumptions: &["chrono's UTC->local conversion and naive calendar arithmetic are trusted (the oracle never maps local->UTC through the zone)", "the boundary equation is asserted only when the zone offset is identical over the whole span from start-of-unit to the scheduled instant", "profile C16-fault (1/80 of the histories) re-executes its history once per rotation-step site with an error or crash image there: the trigger must still be consulted on every record after a failed rotation"],
             real: R_REAL,
             stub: R_STUB,
         },
